@@ -103,8 +103,46 @@ def poke(c):
             del c[0]
 
 
+def from_another_process(ctx, cases):
+    """index -> the object of that case as built, hashed and pickled by another interpreter process
+    (PYTHONHASHSEED differs), or {} when the child cannot be run"""
+    import json
+    import os
+    import pickle
+    import subprocess
+    import sys
+    import tempfile
+
+    from common import scratch_dir
+
+    d = scratch_dir("c11x")
+    try:
+        inp, outp = os.path.join(d, "cases.json"), os.path.join(d, "objs.pickle")
+        json.dump([{k: c[k] for k in ("cls", "seed", "items") if k in c} for c in cases], open(inp, "w"))
+        env = dict(os.environ, PYTHONHASHSEED="4242")
+        p = subprocess.run([sys.executable, os.path.join(os.path.dirname(os.path.abspath(__file__)), "c11_child.py"), inp, outp],
+                           env=env, stdout=subprocess.PIPE, stderr=subprocess.STDOUT, timeout=300)
+        if p.returncode != 0 or not os.path.exists(outp):
+            ctx.notes.append("cross-process child failed: " + p.stdout.decode("utf-8", "replace")[-300:])
+            return {}
+        res = {}
+        for i, blob in pickle.load(open(outp, "rb")):
+            try:
+                res[i] = pickle.loads(blob)
+            except Exception:
+                pass
+        return res
+    finally:
+        import shutil
+
+        shutil.rmtree(d, ignore_errors=True)
+
+
 def check_cases(ctx, cases):
     import attr
+
+    foreign = from_another_process(ctx, cases) if len(cases) > 3 else {}
+    index_of = {id(c): i for i, c in enumerate(cases)}
 
     from swh.model.collections import ImmutableDict
 
@@ -143,6 +181,11 @@ def check_cases(ctx, cases):
             d5 = ImmutableDict(_c.OrderedDict(order2))
             if not (d4 == d5 and d5 == d4 and d4 == d1 and hash(d4) == hash(d5) == hash(d1)) or d4 != d5:
                 ctx.fail(case, "frozen mappings built from OrderedDicts with the same items in another order compare/hash differently", "frozenmap-order-dependent:ordered-dict")
+            fo = foreign.get(index_of[id(case)]) if foreign else None
+            if fo is not None:
+                ctx.count("channel=from-another-process")
+                if not (fo == d1) or hash(fo) != hash(d1) or fo not in {d1}:
+                    ctx.fail(case, "a frozen mapping hashed and pickled in another process is equal to the one built here but hashes differently", "equal-but-different-hash:other-process")
             if not (d1 == d2 and hash(d1) == hash(d2) and d1 == d3 and hash(d1) == hash(d3)):
                 ctx.fail(case, "frozen mappings with the same items compare/hash differently depending on insertion order", "frozenmap-order-dependent")
             for m in MUTATORS:
@@ -195,6 +238,14 @@ def check_cases(ctx, cases):
         except (ValueError, TypeError) as e:
             ctx.count("generator-rejected")
             continue
+        fo = foreign.get(index_of[id(case)]) if foreign else None
+        if fo is not None and fo == o:
+            ctx.count("channel=from-another-process")
+            try:
+                if hash(fo) != hash(o) or fo not in {o}:
+                    ctx.fail(case, "an object hashed and pickled in another process is equal to the one built here but hashes differently (a hash remembered across processes)", "equal-but-different-hash:other-process")
+            except TypeError:
+                pass
         # looking at an object never changes it: hash and equality are taken BEFORE anything else is
         # called on it, then every read-only method is called, then they are taken again
         try:
